@@ -128,3 +128,56 @@ def ledger(P, q0, q1, q2, t1, t2, d0, d1, d2, m0, m1, m2, sus_t, sus_pool, K=7, 
         return "REACHED" if want in seen else ""
     path_done()
     return ""
+
+
+def outcome_states(r0, d0, r1, d1, dy, alloc, my, K=8, want=""):
+    """One container holding two independent operators X (two segments) and Y (one segment): whatever the
+    segments' sizes (a trailing segment may last a positive time that rounds to zero ticks), the container's
+    single result is a success exactly when both operators completed, a failure names an error and leaves a
+    completed prefix followed by failed operators, and the result arrives in the tick the container ends."""
+    reset_globals()
+    p = Pipeline("p", Priority.BATCH_PIPELINE)
+    x = p.new_operator()
+    x.add_segment(Segment(baseline_cpu_seconds=d0, cpu_scaling="const", memory_gb=1, storage_read_gb=r0))
+    x.add_segment(Segment(baseline_cpu_seconds=d1, cpu_scaling="const", memory_gb=1, storage_read_gb=r1))
+    y = p.new_operator()
+    y.add_segment(Segment(baseline_cpu_seconds=dy, cpu_scaling="const", memory_gb=my, storage_read_gb=0))
+    ex = Executor(num_pools=1, cpus_per_pool=2, ram_gb_per_pool=100, ticks_per_second=1)
+    a = Assignment(ops=[x, y], cpu=1, ram=alloc, priority=Priority.BATCH_PIPELINE, pool_id=0, pipeline_id="p")
+    got = None
+    for t in range(K):
+        try:
+            res = ex.run_one_tick([], [a] if t == 0 else [])
+        except Exception as e:
+            return f"C09:container_raised_instead_of_reporting:{exc_name(e)}"
+        live = len(ex.pools[0].active_containers)
+        if res:
+            if got is not None or len(res) != 1:
+                return "C09:second_outcome_for_container"
+            got = res[0]
+            if live != 0:
+                return "C09:result_for_container_still_live"
+            sts = [x.state(), y.state()]
+            if got.failed():
+                if not got.error:
+                    return "C09:failure_without_error_name"
+                k = 0
+                while k < 2 and sts[k] == S.COMPLETED:
+                    k += 1
+                if k == 2 or any(s_ != S.FAILED for s_ in sts[k:]):
+                    return "C09:failure_not_completed_prefix_failed_suffix"
+            else:
+                if any(s_ != S.COMPLETED for s_ in sts):
+                    return "C09:success_with_unfinished_operator"
+        elif got is None and live != 1:
+            return "C09:container_vanished_without_outcome"
+    if got is None:
+        return "" if (r0 // 20 + d0 + r1 // 20 + d1 + dy) > K - 1 else "C09:container_never_reported_an_outcome"
+    if want == "fail":
+        return "REACHED" if got.failed() else ""
+    if want == "zero_tick_tail":
+        return "REACHED" if (r1 > 0 and r1 < 20 and d1 == 0) else ""
+    if want:
+        return ""
+    path_done()
+    return ""
